@@ -1,6 +1,6 @@
 SPECIFICATION Spec
 CONSTANTS
-  Accounts = {1, 2}
+  Accounts = {1}
   Keys = {1}
   MaxDepth = 4
 INVARIANTS TypeOK SurvivingEquivalent SnapIdsOrdered
